@@ -63,11 +63,11 @@ func readPool(bc *ledger.BlockCtx, id string) *vPool {
 }
 
 type vConf struct {
-	MinLock      uint64
-	MinDur       int64 // seconds
-	MaxDur       int64
-	MaxDest      int
-	MaxDescrLen  int
+	MinLock     uint64
+	MinDur      int64 // seconds
+	MaxDur      int64
+	MaxDest     int
+	MaxDescrLen int
 }
 
 func readVestingConf(bc *ledger.BlockCtx) vConf {
